@@ -391,8 +391,6 @@ func c08Constants() []octosql.Value {
 		octosql.NewString("a"), octosql.NewString("12"), octosql.NewString("x"), octosql.NewString(""), f64(0x3FF8000000000000),
 		octosql.NewDuration(time.Second), octosql.NewList([]octosql.Value{one, two}), octosql.NewList([]octosql.Value{one, null}),
 		octosql.NewList(nil), octosql.NewTuple([]octosql.Value{one, octosql.NewString("a")}),
-		// not denotable in SQL: Value.Type() of a list of differently shaped structs (known finding const-typeof-shape-mismatch)
-		octosql.NewList([]octosql.Value{octosql.NewStruct([]octosql.Value{one, two}), octosql.NewStruct([]octosql.Value{null, one})}),
 	}
 }
 
@@ -434,6 +432,11 @@ func c08Gen(g *Gen, tier string, out *bufio.Writer) {
 		}
 		for i := 0; i < 4; i++ {
 			c := Pick(g, consts)
+			if i == 0 && g.Chance(1, 12) {
+				// not denotable in SQL: Value.Type() of a list of differently shaped structs (known finding const-typeof-shape-mismatch)
+				one, two, null := octosql.NewInt(1), octosql.NewInt(2), octosql.NewNull()
+				c = octosql.NewList([]octosql.Value{octosql.NewStruct([]octosql.Value{one, two}), octosql.NewStruct([]octosql.Value{null, one})})
+			}
 			toks := "c " + EncodeValue(c)
 			ex, st := p.typecheck(toks)
 			if st == "" {
